@@ -116,15 +116,21 @@ REFACTORS = [
                 }
                 Ok(())"""),
  ("display_escape-reordered", "src/builder.rs",
-  """            if s.is_empty() || !s.chars().all(nice_char) {
+  """            if s.is_empty() || !s.chars().all(nice_char) || reserved_word(s) {
                 Cow::Owned(format!("'{}'", s.replace("'", r#"'\\''"#)))
             } else {
                 Cow::Borrowed(s)
             }""",
-  """            if !s.is_empty() && s.chars().all(nice_char) {
+  """            if !s.is_empty() && s.chars().all(nice_char) && !reserved_word(s) {
                 return Cow::Borrowed(s);
             }
             Cow::Owned(format!("'{}'", s.replace("'", r#"'\\''"#)))"""),
+ ("display_escape-reserved-inline-contains", "src/builder.rs",
+  """            if s.is_empty() || !s.chars().all(nice_char) || reserved_word(s) {""",
+  """            if s.is_empty() || !s.chars().all(nice_char) || s == "case" || s == "do" || s == "done" || s == "elif"
+                || s == "else" || s == "esac" || s == "fi" || s == "for" || s == "if" || s == "in" || s == "then"
+                || s == "until" || s == "while" || reserved_word(s)
+            {"""),
  ("nice_char-matches", "src/builder.rs",
   """                match c {
                     '-' | '_' | '.' | ',' | '/' => true,
@@ -418,6 +424,18 @@ use ChildState::*;
  ("prep_exec-slash-contains", "src/posix.rs",
   """!cmd.as_bytes().iter().any(|&b| b == b'/')""",
   """!cmd.as_bytes().contains(&b'/')"""),
+ ("display_escape-single-pass", "src/builder.rs",
+  """                Cow::Owned(format!("'{}'", s.replace("'", r#"'\\''"#)))""",
+  """                let mut quoted = String::with_capacity(s.len() + 2);
+                quoted.push('\\'');
+                for c in s.chars() {
+                    match c {
+                        '\\'' => quoted.push_str(r"'\\''"),
+                        c => quoted.push(c),
+                    }
+                }
+                quoted.push('\\'');
+                Cow::Owned(quoted)"""),
 ]
 
 # additional edits (same file) belonging to a refactor: (old, new) pairs
